@@ -74,6 +74,9 @@ class ExtendedCommunities(ExtendedCommunitiesBase):
     Stores packed wire-format bytes. Each extended community is 8 bytes.
     """
 
+    # RFC 7606 7.8 / 7.14 / 7.15: a malformed attribute is treat-as-withdraw
+    TREAT_AS_WITHDRAW = True
+
     ID = Attribute.CODE.EXTENDED_COMMUNITY
     FLAG = Attribute.Flag.TRANSITIVE | Attribute.Flag.OPTIONAL
 
@@ -178,6 +181,9 @@ class ExtendedCommunitiesIPv6(ExtendedCommunitiesBase):
 
     Stores packed wire-format bytes. Each IPv6 extended community is 20 bytes.
     """
+
+    # RFC 7606 7.8 / 7.14 / 7.15: a malformed attribute is treat-as-withdraw
+    TREAT_AS_WITHDRAW = True
 
     ID = Attribute.CODE.IPV6_EXTENDED_COMMUNITY
     FLAG = Attribute.Flag.TRANSITIVE | Attribute.Flag.OPTIONAL
